@@ -292,6 +292,43 @@ M_CMD = {M.FN_DIFF0: "DIFF0", M.FN_DIFF1: "DIFF1", M.FN_DIFF2: "DIFF2", M.FN_DIF
          M.FN_QLPC: "QLPC", M.FN_ZERO: "ZERO"}
 
 
+def long_stream_cuts(mon, rec, spec):
+    """One compressed stream of some 28 KiB (several refills of the decoder's read buffer), decoded whole and then cut at every
+    length of a window well inside it: the sixteen shards' windows of 70 lengths cover every residue of the cut modulo the 1024-byte
+    refill.  A cut stream is refused with IOError wherever the cut falls."""
+    from pydrobert.speech import util as U
+
+    rng = rng_for(spec["seed"], "C13", 987654)
+    N = 14000
+    ch = [np.clip(np.cumsum(rng.integers(-3000, 3001, N)), -30000, 30000).tolist()]
+    stream, stats = M.encode(ch, rng, version=2, ftype=M.TYPE_S16HL, blocksize=64, maxnlpc=0, nmean=0)
+    hdr = SW.header(1, N, "pcm,embedded-shorten-v2.00", 2, "10")
+    if len(stream) < 18500:
+        rec.note("long stream is only %d bytes" % len(stream))
+        return
+    width = max(1, spec["b"] - spec["a"])
+    k = min(15, spec["a"] // width)
+    info = dict(kind="pcm10", version=2, nchan=1, N=N)
+    if k == 0:
+        f = io.BytesIO(hdr + stream)
+        mon.register(f, expected=np.array(ch[0], dtype=np.int16), info=dict(info, nmean=0, maxnlpc=0, blocksize=64, cmds={}, bitshifts=[], nlpc=[], blocksizes=1))
+        try:
+            U.read_signal(f, force_as="sph")
+        except Exception:
+            pass
+    for cut in range(16500 + 70 * k, 16500 + 70 * k + 70):
+        g = io.BytesIO(hdr + stream[:cut])
+        mon.register(g, raises=IOError, info=dict(malformed="truncated:%d of %d bytes" % (cut, len(stream)), **info))
+        try:
+            with warnings.catch_warnings():
+                warnings.simplefilter("ignore")
+                U.read_signal(g, force_as="sph")
+        except Exception:
+            pass
+        rec.count("long_stream_cut_at_consecutive_lengths")
+    mon.expect.clear()
+
+
 def plan(tier, seed):
     n = 1200 if tier == "quick" else 16000
     return [{"a": a, "b": b, "seed": seed} for a, b in split(n, 16)]
@@ -305,6 +342,7 @@ def run_shard(spec, rec):
     if spec["a"] == 0:
         run_case({"kind": "shipped", "idx": 0, "seed": spec["seed"]}, rec, mon)
     run_case({"kind": "crafted", "idx": spec["a"], "seed": spec["seed"]}, rec, mon)
+    long_stream_cuts(mon, rec, spec)
     monitor.report(rec)
     monitor.detach_all()
 
